@@ -297,6 +297,14 @@ static int count_dir(const char *d)
 }
 /* A joined thread can linger in /proc/self/task for a moment after pthread_join has returned
    (the kernel wakes the joiner before the task is unhashed): wait up to 200 ms for the count to settle. */
+/* A joined thread can stay visible in /proc/self/task for a moment (the joiner is woken before the task is reaped), much longer
+   on a loaded machine: the count is re-read until it has come down to `expect` (or for 0.5 s: long enough for a reaped thread to disappear on a loaded machine, short enough that a worker the routine did not join is still seen).  expect <= 0: just settle to 1. */
+int vrt_thread_count_until(int expect)
+{
+    int n = count_dir("/proc/self/task"), k, want = expect > 0 ? expect : 1;
+    for (k = 0; k < 500 && n > want; ++k) { usleep(1000); n = count_dir("/proc/self/task"); }
+    return n;
+}
 int vrt_thread_count(void)
 {
     int n = count_dir("/proc/self/task"), k;
